@@ -27,7 +27,9 @@ def _reexec_with_hashseed(hs: str) -> None:
 # ------------------------------------------------------------------ minimise / replay
 
 
-def minimise(check, plan, signature, ctx, budget=400, wall_s=150.0):
+def minimise(check, plan, signature, ctx, budget=400, wall_s=None):
+    if wall_s is None:
+        wall_s = float(os.environ.get("VERIF_MINIMISE_WALL_S") or 90.0)
     best = plan
     tries = 0
     improved = True
@@ -122,9 +124,13 @@ def run_check(check_id, tier, seed, W, n_jobs_override=None, budget_override=Non
     reported = []
     unreproducible = []
     known_hit = {}
+    # every distinct signature is minimised and replayed twice before it is printed; that is
+    # minutes per signature for a C15 sweep or marathon plan, so the number processed is capped
+    # (all of them are listed in the evidence)
+    max_sigs = common.env_int("VERIF_MAX_SIGNATURES", 6)
     for n_sig, (sig, vs) in enumerate(sorted(by_sig.items())):
-        if n_sig >= 12:
-            print(f"[{check_id}] ... {len(by_sig) - 12} more distinct violation signatures not processed")
+        if n_sig >= max_sigs:
+            print(f"[{check_id}] ... {len(by_sig) - max_sigs} more distinct violation signatures not processed: {sorted(by_sig)[max_sigs:][:12]}")
             break
         vs.sort(key=lambda v: check.plan_size(v["plan"]))
         v = vs[0]
